@@ -721,6 +721,14 @@ var faultProgs = []string{
 	`BEGIN { print length("abc") length("de"); print substr("hello", 2, 3) }`,
 	`BEGIN { s = sprintf("%c%c", 228, 246); print s }`,
 	`BEGIN { for (i = 0; i < 3000; i++) printf "%s", "0123456789012345678901234567890123456789" }`,
+	// child processes sharing standard output, in shapes whose fault-free output has one possible order
+	`BEGIN { print "a" | "cat"; print "b" | "cat" }`,
+	`BEGIN { print "own"; fflush(); print "c3\nc1\nc2" | "sort" }`,
+	`BEGIN { print "x" | "cat"; close("cat"); print "after" }`,
+	`BEGIN { system("echo from-system"); print "after" }`,
+	`BEGIN { print "p1"; print "q" | "cat"; print "p2" }`,
+	`{ print $1 | "sort -r" } END { close("sort -r"); print "done" }`,
+	`BEGIN { print "k" | "cat"; exit 2 }`,
 }
 
 const faultStdin = "alpha 1\nbeta 2\ngamma 3\ndelta 4\n"
